@@ -397,6 +397,7 @@ def convert_file_to_utf8(
         return StreamFactory(prefix, file, "utf-8")
 
     if optimistic_encoding_detection:
+        initial_offset = file.tell()
         prefix = convert_file_prefix_to_utf8(http_headers, file, result)
         factory = StreamFactory(prefix, file, result.get("encoding"))
 
@@ -416,8 +417,9 @@ def convert_file_to_utf8(
             while text_file.read(CONVERT_FILE_TEST_CHUNK_LEN):
                 pass
         except UnicodeDecodeError:
-            # fall back to convert_to_utf8()
-            file = factory.get_binary_file()
+            # fall back to convert_to_utf8() on the original bytes
+            # (the prefix is already converted, its declaration rewritten)
+            file.seek(initial_offset)
         else:
             return factory
 
